@@ -2,3 +2,15 @@ import TruthModel.Props.C01
 open TruthModel.C01
 #print axioms reread_rewrite
 #print axioms emitted_bytes_determine_script
+#print axioms lower_raise_flat
+#print axioms lower_raise_flat_no_warning
+#print axioms blob_roundtrip
+#print axioms canonical_of_compiled
+#print axioms canonical_of_fixed_width
+#print axioms noncanonical_warns
+#print axioms raiseFlat_warns
+#print axioms silent_register_bit_on_immediate
+#print axioms silent_float_register
+#print axioms silent_overpadded_string
+#print axioms blob_not_dwords_does_not_recompile
+#print axioms extra_zero_same_bytes
